@@ -167,12 +167,14 @@ func (a *Affiliation) computeTriggersForCastingSites(pass *analysishelper.Enhanc
 				case *ast.ReturnStmt:
 					// function signature states interface return, but the actual return is a struct
 					// e.g., m(x *A) I { return x }
-					var results = f.Type.Results
-					if results != nil {
-						funcSigResultsList := results.List
+					// Note that the declared result types must be taken from the signature rather than
+					// from the AST field list `f.Type.Results.List`: a single field can declare several
+					// results (e.g., `func m() (a, b I)`), so the fields are not indexed by result position.
+					if fdecl, ok := pass.TypesInfo.Defs[f.Name].(*types.Func); ok {
+						funcSigResults := fdecl.Type().(*types.Signature).Results()
 						for i := range node.Results {
-							if i < len(funcSigResultsList) {
-								lhsType := pass.TypesInfo.TypeOf(funcSigResultsList[i].Type)
+							if i < funcSigResults.Len() {
+								lhsType := funcSigResults.At(i).Type()
 								rhsType := pass.TypesInfo.TypeOf(node.Results[i])
 								appendTypeToTypeTriggers(lhsType, rhsType)
 							}
